@@ -1,6 +1,7 @@
 import McpModel.Base.Proto
 import McpModel.Sessions.Replay
 import McpModel.Sessions.Monitor
+import McpModel.Sessions.Ephemeral
 /-!
 Driver for E7 (C11): the **string layer** only.
 
@@ -16,7 +17,9 @@ monitor is `monStep` / `monEnd` (Monitor.lean; bridged to the model in Bridge.le
 text in Sound.lean).
 
 Harness operations (see go/harness/mcp/zz_verif_sessions_test.go):
-`reset <stateful|stateless> <timeout ms> [es|nes]` (`es`: the handler has an `EventStore`, a fault-injecting
+`reset <stateful|stateless|legacy|noids> <timeout ms> [es|nes]` (`legacy`: a stateless endpoint under
+`MCPGODEBUG allowsessionsinstateless=1`, `noids`: a stateful endpoint whose `GetSessionID` returns "" — both are
+replayed and judged by Ephemeral.lean; `es`: the handler has an `EventStore`, a fault-injecting
 wrapper of the in-memory store) · `fault <flags>` (from now on the event-store methods named by the flags
 fail: `c` SessionClosed, `o` Open of the standalone stream = `Transport.Connect`, `O` Open of a request's
 stream, `a` Append, `r` After; `-` none) · `post <ref> <user> <init|badinit|ping|notif|slow>` ·
@@ -350,16 +353,48 @@ def parseEnd (impl : String) : Option EndObs :=
     if o.render == impl then some o else none
   | _ => none
 
+/-! ## the configurations without kept sessions (Ephemeral.lean) -/
+
+def Eph.EClause.text (m : Eph.Mode) : Eph.EClause → String
+  | .methodAnswered v st =>
+    match m with
+    | .legacy => s!"C11:stateless_no_ids_405: {v.text} on a stateless endpoint (allowsessionsinstateless=1) answered {st.render}"
+    | .noIds => s!"C11:{v.text} method answered {st.render}"
+  | .legacyDelete hasId st => s!"C11:stateless DELETE (allowsessionsinstateless=1) {if hasId then "with" else "without"} a session id answered {st.render}"
+  | .unknownHonoured v st => s!"C11:id_addresses_one_session: unknown session id honoured ({v.text} answered {st.render})"
+  | .missingId v st => s!"C11:{v.text} without a session id answered {st.render}"
+  | .postAnswered st => s!"C11:POST that a temporary session must serve answered {st.render}"
+  | .issued => "C11:id_minted_only_on_creating_post: Mcp-Session-Id issued although GetSessionID returns no id"
+  | .hdrNotInitialize => "C11:id_minted_only_on_creating_post: Mcp-Session-Id on a response that created no session"
+  | .hdrDifferent => "C11:id_minted_only_on_creating_post: response names a different session"
+  | .hdrReused => "C11:id_addresses_one_session: minted id already names a session"
+  | .keeps =>
+    match m with
+    | .legacy => "C11:stateless_no_ids_405: stateless endpoint keeps a session"
+    | .noIds => "C11:dead_after_removal: temporary session kept in the handler's table"
+  | .notClosed => "C11:dead_after_removal: temporary session not closed and forgotten when its POST ended"
+  | .sessionWithId => "C11:id_minted_only_on_creating_post: server session with an id although GetSessionID returns no id"
+  | .rejectedReached => "C11:owner_binding: handler invoked for a rejected request"
+  | .misrouted => "C11:id_addresses_one_session: message routed to another session"
+  | .timerLeft => "C05+C11:closed_session_timer_never_rearmed: an idle timer is armed on an endpoint that keeps no session"
+
+/-- `Server.Sessions()` as the harness prints it: sorted by length, then alphabetically. -/
+def sortSrv (l : List Name) : List Name :=
+  l.mergeSort (fun a b => a.render.length < b.render.length || (a.render.length == b.render.length && a.render ≤ b.render))
+
 /-! ## the engine -/
 
 structure DState where
   r : RState := .init { stateless := false, timeout := 100, publishChecks := Generated.Sessions.publishChecksClosed }
   mon : Mon := {}
+  eph : Option (Eph.State × Eph.MState) := none     -- `reset legacy|noids`: the case runs on Ephemeral.lean
 
 def engine : Engine DState where
   init := {}
   step d toks impl :=
     match toks with
+    | "reset" :: "legacy" :: _ => ({ eph := some ({ mode := .legacy }, { mode := .legacy }) }, { model := "ok" })
+    | "reset" :: "noids" :: _ => ({ eph := some ({ mode := .noIds }, { mode := .noIds }) }, { model := "ok" })
     | "reset" :: mode :: ms :: rest =>
       let cfg : Cfg := { stateless := mode == "stateless", timeout := ms.toNat?.getD 0,
                          publishChecks := Generated.Sessions.publishChecksClosed,
@@ -367,6 +402,10 @@ def engine : Engine DState where
       ({ r := .init cfg }, { model := "ok" })
     | ["reset"] => ({}, { model := "ok" })
     | ["end"] =>
+      if d.eph.isSome then
+        let want : EndObs := { stuck := 0, map := 0, srv := 0, timers := 0 }
+        (d, { model := want.render, violated := (monEnd {} (parseEnd impl)).map EndClause.text })
+      else
       -- (the unrepaired publication of F20 leaves its dead sessions behind: the model follows it)
       let want : EndObs := { stuck := 0, map := endLeft d.r, srv := 0, timers := 0 }
       (d, { model := want.render, violated := (monEnd d.mon (parseEnd impl)).map EndClause.text })
@@ -374,6 +413,15 @@ def engine : Engine DState where
       match parseOp toks with
       | none => (d, { model := "bad-op" })
       | some op =>
+        if let some (es, em) := d.eph then
+          let o := parseObs impl
+          let (v, em') := Eph.judge em op o
+          match Eph.modelOp es op with
+          | none => ({ d with eph := some (es, em') }, { model := "bad-op", violated := v.map (Eph.EClause.text em.mode) })
+          | some (es', mo) =>
+            ({ d with eph := some (es', em') },
+             { model := ({ mo with srv := sortSrv mo.srv } : Obs).render, violated := v.map (Eph.EClause.text em.mode) })
+        else
         -- (a POST with a piecewise body is not modelled on a stateless endpoint: the harness refuses it too)
         if d.r.st.cfg.stateless && (match op with | .postb _ _ | .body _ _ => true | _ => false) then (d, { model := "bad-op" }) else
         let mr := monStep d.r.st.cfg d.mon op (parseObs impl)
